@@ -1078,6 +1078,9 @@ def d2_scale(ctx, idx, fi, R, N):
             marks = _entry_body(r, idx, callee, callee.node.body, X, '/'.join(kinds) or 'list', credits, where, env=env,
                                 returns_flag=True, owner=fi)
             if '<changed>' in marks:
+                if not hasattr(fi, '_c17_comp_helpers'):
+                    fi._c17_comp_helpers = set()
+                fi._c17_comp_helpers.add(call.func.attr)
                 # the local that aggregates the helper's results: F = any(<this comprehension>)
                 want = unparse(lib.inline_locals(comp, fi.node))
                 for n in walk_own(fi.node):
@@ -1170,13 +1173,23 @@ def d2_note(ctx, idx, fi, R, N):
     with r:
         credits = _credit_names(fi, idx)
         flags = sorted(getattr(fi, '_c17_flags', set()))
-        if len(flags) != 1:
-            raise AnalysisError('cannot identify the local that records a changed grade (candidates: %s)' % flags)
-        flag = flags[0]
         try:
             paths = ai.sym_exec(idx, fi, loops='opaque')
         except Unsupported as e:
             raise AnalysisError(str(e))
+        flag, flag_atom = None, None
+        if len(flags) == 1:
+            flag = flags[0]
+        elif not flags:
+            # `any(<comprehension applying the per-entry helper>)` used directly in the condition
+            helpers = getattr(fi, '_c17_comp_helpers', set())
+            atoms = {s_ for p in paths for g in p.conds for s_ in ai.subterms(g)
+                     if s_[0] == 'call' and s_[1] == 'any' and len(s_[2]) == 1 and s_[2][0][0] == 'opaque'
+                     and s_[2][0][1].split(':')[0] in ('ListComp', 'GeneratorExp') and any(h in s_[2][0][1] for h in helpers)}
+            if len(atoms) == 1:
+                flag_atom = next(iter(atoms))
+        if flag is None and flag_atom is None:
+            raise AnalysisError('cannot identify the local that records a changed grade (candidates: %s)' % flags)
         in_list_t = ('cmp', 'in', ('str', 'input_list'), pR)
         msg_t = ('cfg', 'attempt_based_credit_msg')
         live = [p for p in paths if p.kind in ('fall', 'ret') and not any(
@@ -1201,8 +1214,10 @@ def d2_note(ctx, idx, fi, R, N):
         text_checked = set()
         okseen = set()
         for p in live:
-            ft = p.env.get(flag, ('param', flag))
-            if ft[0] == 'bool':
+            ft = flag_atom if flag is None else p.env.get(flag, ('param', flag))
+            if flag is None:
+                fvals, fkey = [False, True], flag_atom
+            elif ft[0] == 'bool':
                 fvals = [ft[1]]
                 fkey = None
             elif ft[0] == 'opaque' or ft == ('param', flag):
@@ -1473,6 +1488,8 @@ _NOTE_EARLY_RETURN = '        if not self.config[\'attempt_based_credit_msg\'] o
 _TAIL_OLD = '        changed_result = False\n        if "input_list" in result:\n            for results_dict in result[\'input_list\']:\n                if results_dict[\'grade_decimal\'] > 0:\n                    grade = results_dict[\'grade_decimal\'] * credit\n                    results_dict[\'grade_decimal\'] = grade\n                    results_dict[\'ok\'] = self.grade_decimal_to_ok(grade)\n                    changed_result = True\n        else:\n            if result[\'grade_decimal\'] > 0:\n                grade = result[\'grade_decimal\'] * credit\n                result[\'grade_decimal\'] = grade\n                result[\'ok\'] = self.grade_decimal_to_ok(grade)\n                changed_result = True\n\n        # Append the message if credit was reduced\n        if self.config[\'attempt_based_credit_msg\'] and changed_result:\n            credit_decimal = Decimal(credit * 100).quantize(Decimal(\'.1\'))\n            if credit_decimal == int(credit_decimal):\n                # Used to get rid of .0 appearing in percentages\n                credit_decimal = int(credit_decimal)\n            msg = "Maximum credit for attempt #{} is {}%."\n            if "input_list" in result:\n                key = \'overall_message\'\n            else:\n                key = \'msg\'\n            if result[key]:\n                result[key] += \'\\n\\n\'\n            result[key] += msg.format(attempt_number, credit_decimal)\n\n'
 _TAIL_ENTRIES_AND_KEY_PICKED_ONCE = '        if "input_list" in result:\n            entries, msg_key = result[\'input_list\'], \'overall_message\'\n        else:\n            entries, msg_key = [result], \'msg\'\n        changed_result = False\n        for entry in entries:\n            if entry[\'grade_decimal\'] > 0:\n                grade = entry[\'grade_decimal\'] * credit\n                entry[\'grade_decimal\'] = grade\n                entry[\'ok\'] = self.grade_decimal_to_ok(grade)\n                changed_result = True\n\n        # Append the message if credit was reduced\n        if self.config[\'attempt_based_credit_msg\'] and changed_result:\n            credit_decimal = Decimal(credit * 100).quantize(Decimal(\'.1\'))\n            if credit_decimal == int(credit_decimal):\n                credit_decimal = int(credit_decimal)\n            msg = "Maximum credit for attempt #{} is {}%."\n            if result[msg_key]:\n                result[msg_key] += \'\\n\\n\'\n            result[msg_key] += msg.format(attempt_number, credit_decimal)\n\n'
 
+_TAIL_HELPER_AND_ANY = '        entries = result[\'input_list\'] if "input_list" in result else [result]\n        reductions = [self._scale_grade(entry, credit) for entry in entries]\n\n        # Append the message if credit was reduced\n        if self.config[\'attempt_based_credit_msg\'] and any(reductions):\n            credit_decimal = Decimal(credit * 100).quantize(Decimal(\'.1\'))\n            if credit_decimal == int(credit_decimal):\n                credit_decimal = int(credit_decimal)\n            msg = "Maximum credit for attempt #{} is {}%."\n            key = \'overall_message\' if "input_list" in result else \'msg\'\n            if result[key]:\n                result[key] += \'\\n\\n\'\n            result[key] += msg.format(attempt_number, credit_decimal)\n\n    def _scale_grade(self, entry, credit):\n        """Scales a positive grade by credit; returns whether the entry changed"""\n        if not entry[\'grade_decimal\'] > 0:\n            return False\n        grade = entry[\'grade_decimal\'] * credit\n        entry[\'grade_decimal\'] = grade\n        entry[\'ok\'] = self.grade_decimal_to_ok(grade)\n        return True\n\n'
+
 MUTANTS = [
     Mutant('linear-sign', CREDIT, "credit = 1 + (min_cred - 1) * steps / decrease_steps", "credit = 1 - (min_cred - 1) * steps / decrease_steps", 'D1'),
     Mutant('linear-divisor', CREDIT, "credit = 1 + (min_cred - 1) * steps / decrease_steps", "credit = 1 + (min_cred - 1) * steps / (decrease_steps + 1)", 'D1'),
@@ -1533,6 +1550,11 @@ MUTANTS = [
 ]
 
 BENIGN = [
+    Benign('per-entry-helper-and-any-in-the-condition', BASE, _TAIL_OLD, _TAIL_HELPER_AND_ANY),
+    Benign('unit-interval-validator-as-module-constant', CREDIT, [
+        ("Required('minimum_credit', default=0.2): Any(All(float, Range(0, 1)), 0, 1)", "Required('minimum_credit', default=0.2): _unit_interval"),
+        ("Required('factor', default=0.75): Any(All(float, Range(0, 1)), 0, 1)", "Required('factor', default=0.75): _unit_interval"),
+        ("__all__ = ['LinearCredit', 'GeometricCredit', 'ReciprocalCredit']\n", "__all__ = ['LinearCredit', 'GeometricCredit', 'ReciprocalCredit']\n\n_unit_interval = Any(All(float, Range(0, 1)), 0, 1)\n")], None),
     Benign('clamped-local-used-everywhere', BASE, [
         ("        if attempt_number < 1:  # Just in case edX has issues\n            attempt_number = 1\n        self.log(\"Attempt number {}\".format(attempt_number))",
          "        attempt = max(attempt_number, 1)\n        self.log(\"Attempt number {}\".format(attempt))"),
